@@ -324,6 +324,7 @@ func RunShard(t *testing.T) {
 	}
 done:
 	sum.Next = idx
+	simAgg.mergeInto(sum.Stats)
 	sum.WallMS = time.Since(t0).Milliseconds()
 	sum.HashesTotal = len(hashes)
 	for k := range hashes {
